@@ -1059,6 +1059,9 @@ def rule_profile_diff(prop, ctx_repo_dev, repo_rel, ls_factory):
                     sample={"site": loc_of(b, bb), "fn": p, "assumed": ASSUMED_DEBUG_ASSERTS[p][:80]})
             R.assume(key, ASSUMED_DEBUG_ASSERTS[p])
             continue
+        if not debug_assert_side_effect_free(b):
+            R.violation(key + ":side-effect", "the debug_assert! condition in %s changes state (it writes a variable or hands out a `&mut`): release builds skip that change" % p, loc_of(b, bb), p)
+            continue
         cv = ls_factory(repo)
         sp, kinds = cv.shape(b)
         if sp is not None or any(k.startswith("array") for k in kinds):
@@ -1485,16 +1488,61 @@ def run_top(F, dom, b, inline, max_steps=600000, max_paths=20000):
 
 
 def debug_assert_side_effect_free(body):
-    """No user variable is written inside the statements expanded from debug_assert!."""
-    names = {d["place"]["l"] for d in body.mir["debug"] if not d["place"]["p"]}
-    for blk in body.blocks:
+    """Nothing that exists outside a debug_assert! is changed by evaluating its condition.  The code of one debug_assert! is the
+    region entered over the true edge of its `cfg!(debug_assertions)` test and left at that test's false target; inside it there
+    must be no store to — and no `&mut` of — a place rooted in a parameter or in a local that is also assigned outside the region
+    (`debug_assert!(self.set_bit(255, true))` would do its work in debug builds only)."""
+    succ = body.succ()
+    regions = []
+    for i, blk in enumerate(body.blocks):
+        t = blk["term"]
+        if t["k"] != "switch" or not any("debug_assert" in m for m in ((t.get("span") or {}).get("macros") or [])):
+            continue
+        if not any("cfg!" in m for m in ((t.get("span") or {}).get("macros") or [])):
+            continue
+        skip = next((tg for v, tg in t["arms"] if int(v) == 0), None)
+        entry = t["otherwise"]
+        if skip is None or entry == skip:
+            continue
+        def reach(x0):
+            seen, todo = set(), [x0]
+            while todo:
+                x = todo.pop()
+                if x in seen:
+                    continue
+                seen.add(x)
+                todo.extend(succ[x])
+            return seen
+        # what only the enabled branch executes: reachable from its entry, not from the disabled branch's target
+        regions.append(reach(entry) - reach(skip))
+    if not regions:
+        return True
+    allr = set().union(*regions)
+    names = {d["place"]["l"] for d in body.mir["debug"] if not d["place"]["p"]}      # user variables (compiler temporaries are reused freely)
+    outer_assigned = set(range(1, body.arg_count + 1))
+    for i, blk in enumerate(body.blocks):
+        if i in allr:
+            continue
         for st in blk["stmts"]:
-            if st["k"] == "assign" and any("debug_assert" in m for m in (st["span"].get("macros") or [])):
-                if st["place"]["l"] in names:
-                    return False
-                rv = st["rv"]
-                if rv["k"] in ("ref", "rawptr") and rv.get("mut") and rv["place"]["l"] in names:
-                    return False
+            if st["k"] == "assign":
+                outer_assigned.add(st["place"]["l"])
+        t = blk["term"]
+        if t["k"] == "call" and t.get("dest"):
+            outer_assigned.add(t["dest"]["l"])
+    outer_assigned &= names | set(range(1, body.arg_count + 1))
+    for i in sorted(allr):
+        blk = body.blocks[i]
+        for st in blk["stmts"]:
+            if st["k"] != "assign":
+                continue
+            if st["place"]["l"] in outer_assigned:
+                return False
+            rv = st["rv"]
+            if rv["k"] in ("ref", "rawptr") and rv.get("mut") and rv["place"]["l"] in outer_assigned and "FakeForPtrMetadata" not in str(rv.get("kind")):
+                return False
+        t = blk["term"]
+        if t["k"] == "call" and t.get("dest") and t["dest"]["l"] in outer_assigned:
+            return False
     return True
 
 
